@@ -55,6 +55,12 @@ def pend : PC → Bool
   | .dlRc | .pdLock | .pdRc | .pdClose | .pdRm | .drMbd => true
   | _ => false
 
+/-- the thread is inside a `DecRef` of a reference it does not own (only the callers as written
+– `Proc.decRefStray` – get here) -/
+def strayPC : PC → Bool
+  | .drLoad false | .drCas _ false => true
+  | _ => false
+
 def prem (sh : Shared) : Prop := sh.mbd = true ∧ sh.dir = true ∧ sh.rc = 0
 
 /-- what a thread at a given pc knows about the shared state -/
@@ -68,8 +74,8 @@ def TLpc (sh : Shared) (th : Th) : Prop :=
   | .aqInit => th.holds = th.base ∧ sh.rc = 0 ∧ sh.dir = true
   | .aqStore => th.holds = th.base ∧ sh.rc = 0 ∧ sh.dir = true ∧ sh.isOpen = true
   | .aqUnlock r => (r = .ok → th.holds = th.base + 1) ∧ (r ≠ .ok → th.holds = th.base) ∧ r ≠ .none
-  | .drLoad own => own = true ∧ th.holds ≥ 1
-  | .drCas cur own => cur > 0 ∧ own = true ∧ th.holds ≥ 1
+  | .drLoad own => own = true → th.holds ≥ 1
+  | .drCas cur own => cur > 0 ∧ (own = true → th.holds ≥ 1)
   | .pdLock | .pdRc | .dlRc => sh.mbd = true
   | .pdClose => sh.mbd = true ∧ sh.rc = 0
   | .pdRm => sh.mbd = true ∧ sh.rc = 0 ∧ sh.isOpen = false
@@ -98,7 +104,7 @@ structure Guar (t : Tid) (sh sh' : Shared) : Prop where
 
 /-- facts about the acting thread needed by its step -/
 structure Pre (t : Tid) (sh : Shared) (th : Th) : Prop where
-  rcGe : (th.holds : Int) ≤ sh.rc
+  rcNonneg : 0 ≤ sh.rc
   lock : locked th.pc = true ↔ sh.mu = some t
   openOfRc : sh.down = false → sh.rc > 0 → sh.isOpen = true
   dirOfOpen : sh.isOpen = true → sh.dir = true
@@ -110,7 +116,7 @@ structure Pre (t : Tid) (sh : Shared) (th : Th) : Prop where
 theorem tstep_guar {t sh th p ok sh' th'} (h : tstep t sh th p ok = some (sh', th')) (P : Pre t sh th) :
     Guar t sh sh' := by
   obtain ⟨pc, holds, base, res, flag⟩ := th
-  obtain ⟨rcGe, lock, openOfRc, dirOfOpen, mbdOfNoDir, rdExcl, rdGe, tl⟩ := P
+  obtain ⟨rcNonneg, lock, openOfRc, dirOfOpen, mbdOfNoDir, rdExcl, rdGe, tl⟩ := P
   cases pc <;> simp only [tstep] at h
   case idle =>
     cases p <;> simp only [] at h <;> (try split at h) <;> simp at h <;> obtain ⟨rfl, rfl⟩ := h <;>
